@@ -123,3 +123,84 @@ Theorem C19_ex_db_ilis_ok :
 Proof. exact (@ex_db_ilis_ok). Qed.
 Print Assumptions C19_ex_db_ilis_ok.
 
+Require Import WnV.Proofs.AddContent WnV.Proofs.AddRemove WnV.Proofs.IliLinks.
+
+(* ---- which synsets carry which ILI stays the same: the synsets table is untouched, and every ILI row a synset points to still exists with the same rowid, id and metadata (no other row has that rowid); proposed ILIs and every content table of every lexicon are unchanged *)
+Theorem C19_synset_keeps_ili :
+  forall (d : db) (lines : list (list str)) (d' : db),
+         ilis_ok (get_table d "ilis") = true ->
+         add_ili d lines = Ok d' ->
+         forall r : row,
+         In r (get_table d "synsets") ->
+         In r (get_table d' "synsets") /\
+         (forall (k : Z) (i : str),
+          col "synsets" "ili_rowid" r = CInt k ->
+          (exists ir : row,
+             In ir (get_table d "ilis") /\ rowid_of ir = k /\ col "ilis" "id" ir = CText i) ->
+          (exists ir' : row,
+             In ir' (get_table d' "ilis") /\
+             rowid_of ir' = k /\
+             col "ilis" "id" ir' = CText i /\
+             col "ilis" "metadata" ir' =
+             col "ilis" "metadata"
+               match find (fun x : row => (rowid_of x =? k)%Z) (get_table d "ilis") with
+               | Some x => x
+               | None => []
+               end) /\
+          (forall ir' : row,
+           In ir' (get_table d' "ilis") -> rowid_of ir' = k -> col "ilis" "id" ir' = CText i)).
+Proof. exact (@synset_keeps_ili). Qed.
+Print Assumptions C19_synset_keeps_ili.
+
+Theorem C19_lexicon_content_unchanged :
+  forall (d : db) (lines : list (list str)) (d' : db),
+         add_ili d lines = Ok d' ->
+         forall t : string, In t content_tables -> get_table d' t = get_table d t.
+Proof. exact (@lexicon_content_unchanged). Qed.
+Print Assumptions C19_lexicon_content_unchanged.
+
+Theorem C19_proposed_ilis_unchanged :
+  forall (d : db) (lines : list (list str)) (d' : db),
+         add_ili d lines = Ok d' -> get_table d' "proposed_ilis" = get_table d "proposed_ilis".
+Proof. exact (@proposed_ilis_unchanged). Qed.
+Print Assumptions C19_proposed_ilis_unchanged.
+
+Theorem C19_other_lookup_tables_unchanged :
+  forall (d : db) (lines : list (list str)) (d' : db),
+         add_ili d lines = Ok d' ->
+         get_table d' "relation_types" = get_table d "relation_types" /\
+         get_table d' "lexfiles" = get_table d "lexfiles".
+Proof. exact (@other_lookup_tables_unchanged). Qed.
+Print Assumptions C19_other_lookup_tables_unchanged.
+
+Theorem C19_ili_tables_are_lookup_tables :
+  existsb (String.eqb "ilis") content_tables = false /\
+         existsb (String.eqb "ili_statuses") content_tables = false /\
+         existsb (String.eqb "proposed_ilis") content_tables = true.
+Proof. exact (@ili_tables_are_lookup_tables). Qed.
+Print Assumptions C19_ili_tables_are_lookup_tables.
+
+Theorem C19_ex_ili_links :
+  ilis_ok (get_table ex_db2 "ilis") = true /\
+         match add_ili ex_db2 ex_lines3 with
+         | Ok d' =>
+             map (col "synsets" "ili_rowid") (get_table ex_db2 "synsets") = [CInt 1; CInt 1] /\
+             get_table d' "synsets" = get_table ex_db2 "synsets" /\
+             hd [] (get_table ex_db2 "ilis") =
+             [CInt 1; CText (k "i1"); CInt 2; CText (k "changed"); CNull] /\
+             hd [] (get_table d' "ilis") =
+             [CInt 1; CText (k "i1"); CInt 4; CText (k "a new definition"); CNull] /\
+             map (fun r : row => (rowid_of r, col "ili_statuses" "status" r))
+               (get_table d' "ili_statuses") =
+             [(1, CText (k "active")); (2, CText (k "deprecated")); (3, CText (k "weird"));
+              (4, CText (k "retired"))] /\
+             Datatypes.length (get_table d' "ilis") = 5%nat /\
+             forallb
+               (fun t : string =>
+                sx_eqb (sx_of_db [(tn t, get_table d' t)]) (sx_of_db [(tn t, get_table ex_db2 t)]))
+               content_tables = true
+         | _ => False
+         end.
+Proof. exact (@ex_ili_links). Qed.
+Print Assumptions C19_ex_ili_links.
+
